@@ -7,7 +7,9 @@ Domain   a generated tree + nested layout + sequence of 1-4 creates (any directo
          and with os.listdir / os.scandir (hence os.walk) returning a generated permutation.  Before every create
          the harness re-applies identical modification times to all media files and directories at both places.
 Oracle   byte equality of every file of every ascmhl folder between A and B after every step (same relative
-         names); a sealed tree copied to a third generated location verifies there with exit 0.
+         names); a sealed tree copied to a third generated location verifies there with exit 0.  Finally, with two
+         sibling child histories damaged in different ways (31 / 32), verify / diff / info on their parent must end with
+         the same exit code under every enumeration order.
 """
 import os
 import random
@@ -32,7 +34,7 @@ ASSUMPTIONS = [
     "clock frozen with freezegun; host name identical (same process)",
 ]
 BUDGET = {"quick": (160, 4), "thorough": (24000, 16)}
-REQUIRED = ["sibling_histories", "ancestor_matches_pattern", "ancestor_ascmhl", "relative_invocation", "trailing_slash", "dot_invocation", "relocated_verify", "ancestor_glob_chars", "case_colliding_siblings", "create_sf", "rename_recorded_with_dr"]
+REQUIRED = ["sibling_histories", "ancestor_matches_pattern", "ancestor_ascmhl", "relative_invocation", "trailing_slash", "dot_invocation", "relocated_verify", "ancestor_glob_chars", "case_colliding_siblings", "create_sf", "rename_recorded_with_dr", "two_refused_children", "rename_with_duplicate_content"]
 
 CFG = {
     "kinds": ["create"] * 8 + ["create_sf"] * 2 + ["put_new", "mkdir"],
@@ -76,7 +78,12 @@ def _scn(draw):
         # a file with content of its own is sealed, renamed, and the rename recorded with -dr
         fm = draw(gen.formats(2))
         scn["steps"] += [{"op": "put_new", "path": "renameme.mov", "spec": "only this file has this content"}, {"op": "create", "root": "", "formats": fm, "flags": []},
-                         {"op": "mv", "src": "renameme.mov", "dst": "renamed.mov"}, {"op": "create", "root": "", "formats": fm, "flags": ["-dr"]}]
+                         {"op": "mv", "src": "renameme.mov", "dst": "renamed.mov"}]
+        if draw(st.booleans()) and not ({"renamed copy.mov", "zz"} & hist.top_names_used(scn)):
+            # ... and copied as well: two new files carry the content of the one that is gone
+            scn["steps"] += [{"op": "put_new", "path": "renamed copy.mov", "spec": "only this file has this content"}, {"op": "put_new", "path": "zz/a third copy.mov", "spec": "only this file has this content"}]
+            scn["rename_dup"] = True
+        scn["steps"] += [{"op": "create", "root": "", "formats": fm, "flags": ["-dr"]}]
         scn["rename_dr"] = True
     pat = draw(st.sampled_from([None, None, "tmp*", "*.bak", "cache", "cache/"]))
     scn["pattern"] = pat
@@ -230,6 +237,34 @@ def run_case(scn, ctx):
         res = w.verify(third)
         require(res.exc is None and res.exit_code == 0, "relocated-verify", "copy of the sealed tree at %r: %s\n%s" % (third, res.brief(), res.output[-300:]), res)
         feats.add("relocated_verify")
+        # two sibling histories refused for different reasons (one manifest edited: 31, one chain file gone: 32): which of
+        # them decides the exit code of a command on their parent must not depend on the enumeration order either
+        pair = None
+        for a in rootsA:
+            kids = sorted(r for r in rootsA if r != a and w.deepest_root(r, rootsA, for_dir_entry=True) == a)
+            if len(kids) >= 2:
+                pair = (a, kids[scn["perm"] % len(kids)], kids[(scn["perm"] + 1) % len(kids)])
+                break
+        if pair:
+            a, k1, k2 = pair
+            for loc in (locA, locB):
+                m1 = w.manifests(loc + k1[len(locA):])[-1][1]
+                with open(w.abs(m1), "ab") as fh:
+                    fh.write(b" ")
+                os.remove(w.abs(loc + k2[len(locA):] + "/ascmhl/ascmhl_chain.xml"))
+            for cmd in ("verify", "diff", "info"):
+                with permuted_listing(None):
+                    rA = w.run(cmd, [w.abs(a)])
+                outs = []
+                for seed in (scn["perm"], 0, 1):
+                    with permuted_listing(seed):
+                        outs.append(w.run(cmd, [w.abs(locB + a[len(locA):])]))
+                require(rA.exit_code in (31, 32) and rA.exc is None, "refused", "A: " + rA.brief(), rA)
+                for rB in outs:
+                    require(rB.exit_code == rA.exit_code, "same-exit-refused", "%s with two damaged child histories (%r edited, %r without chain): exit %s with sorted listing, %s with another enumeration order" % (cmd, k1[len(locA):], k2[len(locA):], rA.exit_code, rB.exit_code), rB)
+            feats.add("two_refused_children")
+        if scn.get("rename_dup"):
+            feats.add("rename_with_duplicate_content")
         for f in feats:
             ctx.event(f)
         ctx.mark_nontrivial("sibling_histories" in feats or "ancestor_matches_pattern" in feats)
